@@ -193,7 +193,7 @@ class DefaultXMLParser:
                 # whole message, save back remainder (if any) to buffer
                 # and dispatch the message
                 start += re_end
-                message = ''.join(self._session._message_list)
+                message = textify(b''.join(self._session._message_list))
                 self._session._message_list = []
                 self.logger.debug('_parse11: found end of message delimiter')
                 self._session._dispatch_message(message)
@@ -209,11 +209,14 @@ class DefaultXMLParser:
                 self.logger.debug('_parse11: chunk size %d bytes', digits)
                 if (data_len-start) >= (re_end + digits):
                     # we have enough data for the chunk
-                    fragment = textify(data[start+re_end:start+re_end+digits])
+                    # chunks are cut at octet granularity (possibly inside a
+                    # multi-byte character): keep the octets, the message is
+                    # decoded as a whole at end-of-chunks
+                    fragment = data[start+re_end:start+re_end+digits]
                     self._session._message_list.append(fragment)
                     start += re_end + digits
                     self.logger.debug('_parse11: appending %d bytes', digits)
-                    self.logger.debug('_parse11: fragment = "%s"', fragment)
+                    self.logger.debug('_parse11: fragment = %r', fragment)
                 else:
                     # we don't have enough bytes, just break out for now
                     # after updating start pointer to start of new chunk
